@@ -55,6 +55,31 @@ func c04Apply(x *scn.Exec, e mc.Event) bool {
 	return true
 }
 
+// payLoopStart turns scripted-maker families into families that START in the paying state:
+// the honest prefix up to the confirmed opening transaction with the first claim-payment
+// attempt failing (or leaving an HTLC pending with an error), so that the whole depth budget
+// goes into what happens around the retry loop (blocks, time, restarts, crashes).
+func payLoopStart(loop []Family) []Family {
+	var out []Family
+	for _, f := range loop {
+		for _, po := range []world.PayOutcome{world.PayFail, world.PayPendingErr} {
+			g := f
+			cfg := *f.Cfg
+			g.Cfg = &cfg
+			g.Name = f.Name + "/payloop-" + po.String()
+			pre := []mc.Event{{Name: "adv_request"}}
+			if cfg.AInitiates {
+				pre = []mc.Event{rpcInit[0], {Name: "adv_agree"}}
+			}
+			pre = append(pre, mc.Event{Name: "adv_open", Arg: "ok"}, mc.Event{Name: "adv_announce", Arg: "ok"},
+				mc.Event{Name: "payplan", Arg: po.String(), N: int(po)}, mc.Event{Name: "block", Arg: "conf"})
+			g.Initial = pre
+			out = append(out, g)
+		}
+	}
+	return out
+}
+
 func oracleC04(x *scn.Exec) []mc.Violation {
 	if x.Cfg.Chain != "lbtc" {
 		return nil
@@ -169,18 +194,15 @@ func init() {
 			// its paying state while blocks arrive and restarts happen
 			loop := advFamilies(tier, advCfg{txVariants: []string{"ok"}, annVariants: []string{"ok"}},
 				scn.Flags{Blocks: true, Time: true, Restart: true, PayPlan: true, PayKinds: []world.PayOutcome{world.PayFail, world.PayPendingErr}, MaxTime: 3, MaxBlocks: 4, NoCsvJump: true},
-				mc.Bounds{MaxDepth: 9, MaxDev: 3, Budget: 60 * time.Second, CrashAfterStore: true},
-				mc.Bounds{MaxDepth: 12, MaxDev: 4, Budget: 10 * time.Minute}, bothBack)
-			for i := range loop {
-				loop[i].Name += "/payloop"
-			}
-			fams = append(fams, loop...)
+				mc.Bounds{MaxDepth: 7, MaxDev: 3, Budget: 50 * time.Second, CrashAfterStore: true},
+				mc.Bounds{MaxDepth: 9, MaxDev: 4, Budget: 8 * time.Minute}, bothBack)
+			fams = append(fams, payLoopStart(loop)...)
 			var out []Family
 			for _, f := range fams {
 				if f.Cfg.Chain != "lbtc" {
 					continue
 				}
-				if strings.HasSuffix(f.Name, "/payloop") {
+				if strings.Contains(f.Name, "/payloop-") {
 					out = append(out, f)
 					continue
 				}
@@ -209,12 +231,9 @@ func init() {
 				mc.Bounds{MaxDepth: 11, MaxDev: 3, Budget: 14 * time.Minute}, bothBack)
 			loop := advFamilies(tier, advCfg{txVariants: []string{"ok"}, annVariants: []string{"ok"}},
 				scn.Flags{Blocks: true, Time: true, Restart: true, PayPlan: true, PayKinds: []world.PayOutcome{world.PayFail, world.PayPendingErr}, MaxTime: 3, MaxBlocks: 4, NoCsvJump: true, BlocksAlways: true},
-				mc.Bounds{MaxDepth: 9, MaxDev: 3, Budget: 60 * time.Second, CrashAfterStore: true},
-				mc.Bounds{MaxDepth: 12, MaxDev: 4, Budget: 10 * time.Minute}, bothBack)
-			for i := range loop {
-				loop[i].Name += "/payloop"
-			}
-			fams = append(fams, loop...)
+				mc.Bounds{MaxDepth: 7, MaxDev: 3, Budget: 50 * time.Second, CrashAfterStore: true},
+				mc.Bounds{MaxDepth: 9, MaxDev: 4, Budget: 8 * time.Minute}, bothBack)
+			fams = append(fams, payLoopStart(loop)...)
 			var out []Family
 			for _, f := range fams {
 				if f.Cfg.Chain == "btc" {
